@@ -191,6 +191,35 @@ def h_union_with_empty(base):
         prove(f"{nm}:union_of_empty_operands_is_empty", Or(u.shape.x == 0, u.shape.y == 0), when=And(e0, e1))
 
 
+def h_union_empty_other_grid(kind):
+    """an operand without pixels that is NOT on the grid of the other one (another pixel size, a
+    sub-pixel offset, another CRS) is refused like any other operand off the grid -- having no
+    pixels is no licence"""
+    from affine import Affine
+
+    import odc.geo.geobox as gbx
+
+    A = base_affine("north_up")
+    ny, nx = Int("ny", 1), Int("nx", 1)
+    g = gbx.GeoBox((ny, nx), A, "epsg:3857")
+    w = Int("w", 0)
+    if kind == "pixel_size":
+        e = gbx.GeoBox((0, w), A * Affine.scale(2, 2), "epsg:3857")
+    elif kind == "subpixel":
+        d = Real("d")
+        assume(And(d > F(1, 10), d < F(9, 10)))
+        e = gbx.GeoBox((0, w), A * Affine.translation(d, 0), "epsg:3857")
+    else:
+        e = gbx.GeoBox((0, w), A, "epsg:32633")
+    for nm, op in (("g_or_e", lambda: g | e), ("e_or_g", lambda: e | g)):
+        try:
+            op()
+            ok = False
+        except ValueError:
+            ok = True
+        prove(f"{nm}:empty_operand_off_the_grid_is_refused", ok)
+
+
 def h_near_scale_wide(eps):
     """a pixel size that differs by less than the accepted relative tolerance (numpy.isclose's
     1e-5): when the pair is accepted, the union still has to contain both operands to within half
@@ -479,6 +508,10 @@ def h_snap_to(base):
         else:
             ks = (f, f + 1)
         # new offset p_ is minus the nearest integer to u
+        # asked twice: to a thousandth of a pixel first (a counterexample of that size survives the
+        # replay in doubles), then to the library's own 1e-8
+        coarse = F(1, 1000)
+        prove(f"on_others_grid_to_a_thousandth_{nm}", Or(*[And(-p_ - k <= coarse, k + p_ <= coarse) for k in ks]))
         prove(f"on_others_grid_{nm}", Or(*[And(-p_ - k <= tol, k + p_ <= tol) for k in ks]))
         prove(f"moved_at_most_half_pixel_{nm}", And(p_ + u_ <= F(1, 2), -u_ - p_ <= F(1, 2)))
     prove("same_linear_part", And(r.affine.a == A.a, r.affine.b == A.b, r.affine.d == A.d, r.affine.e == A.e))
@@ -495,6 +528,8 @@ OBLIGATIONS = [
     Ob("S1_bbox_stream", h_bbox_stream, fixed(), descr="stream forms equal the folded binary operations; empty stream raises", functions=("odc.geo.geom.bbox_union", "odc.geo.geom.bbox_intersection"), setup=setup_merge),
     Ob("S2_union", h_union, tiered([dict(base=b) for b in BQ], [dict(base=b) for b in BT]), descr="| is the smallest on-grid GeoBox containing both operands; commutative",
        functions=("odc.geo.geobox.geobox_union_conservative", "odc.geo.geobox.bounding_box_in_pixel_domain", "odc.geo.geobox.pixel_translation"), stubs=("numpy.isclose model",), **FB),
+    Ob("S2_union_empty_other_grid", h_union_empty_other_grid, fixed(dict(kind="pixel_size"), dict(kind="subpixel"), dict(kind="crs")),
+       descr="a union operand without pixels on another grid (pixel size, sub-pixel offset, CRS) is refused with ValueError in either order", functions=("odc.geo.geobox.geobox_union_conservative", "odc.geo.geobox.pixel_translation"), **FB),
     *([Ob("S2_union_with_empty", h_union_with_empty, fixed(dict(base="north_up"), dict(base="rotated")),
           descr="union with an operand that has no pixels (the result of an intersection of boxes that do not meet): the smallest box containing the pixels of the others, in either order; empty with empty is empty",
           functions=("odc.geo.geobox.geobox_union_conservative", "odc.geo.geobox.bounding_box_in_pixel_domain", "odc.geo.geom.bbox_union"),
